@@ -43,6 +43,7 @@ def run(idx: ProgramIndex, rep: Report, tier: str):
     reductions(idx, rep)
     list_routing(idx, rep, "IndependentModelList", "models", "C08-3", 3)
     param_expansion(idx, rep)
+    objective_reductions(idx, rep)
 
 
 def _families(idx: ProgramIndex) -> List[ClassInfo]:
@@ -257,3 +258,39 @@ def param_expansion(idx: ProgramIndex, rep: Report):
                             "expanded to a shape that involves the parameter's own batch shape (broadcast)" if ok else
                             "`%s` expands the parameter to a shape taken from the data alone: a parameter batch that is larger than (or broadcast against a size-1 dimension of) the data batch raises or is dropped instead of producing the broadcast batch" % " ".join(src(c).split())[:80], {})
     rep.floor("C08-4", "expansions of parameters in forward code", n, 4)
+
+
+# ---- C08-5: objective terms keep the batch axes -----------------------------------------------------------------------------
+def objective_reductions(idx: ProgramIndex, rep: Report):
+    """Element b of a batched MLL / ELBO must be the value of replica b: every tensor reduction in the objective code names the
+    axes it reduces (data, event or sample axes); a reduction over *all* axes (`.sum()` / `.mean()` without dim) folds the batch
+    axes in, so every batch element receives the total of all elements."""
+    rep.rule("C08-5", "reductions in the objective code (MLL classes, added-loss terms) name their axes: no all-axes sum/mean of a term that enters the per-batch-element objective")
+    bases = [idx.find_class("MarginalLogLikelihood")]
+    try:
+        bases.append(idx.find_class("AddedLossTerm"))
+    except AnalysisError:
+        pass
+    GLOBAL_TERMS = {
+        # (class, method) -> reason: a term that is one scalar for the whole model by design
+        ("KLGaussianAddedLossTerm", "loss"): "GPLVM latent KL: one scalar for the whole model; it is divided by data_dim because the ELBO adds it to every output dimension",
+    }
+    n = 0
+    for base in bases:
+        for cls in idx.subclasses(base):
+            for name, fi in sorted(cls.methods.items()):
+                if (cls.name, name) in GLOBAL_TERMS:
+                    rep.observe("C08-5", "%s:%s.%s" % (cls.module.name, cls.qualname, name), fi.where, "global term by table: %s" % GLOBAL_TERMS[(cls.name, name)])
+                    continue
+                for c in calls_in(fi.node):
+                    if not (isinstance(c.func, ast.Attribute) and c.func.attr in ("sum", "mean", "prod", "logsumexp")):
+                        continue
+                    if chain(c.func.value) in ("torch", "math"):
+                        continue
+                    n += 1
+                    has_dim = bool(c.args) or any(k.arg in ("dim", "axis") for k in c.keywords)
+                    inst = "%s:%s.%s[%s]" % (cls.module.name, cls.qualname, name, norm(c)[:60])
+                    rep.add("C08-5", inst, "%s:%d" % (fi.module.relpath, c.lineno), has_dim,
+                            "reduces named axes" if has_dim else
+                            "`%s` reduces over every axis, including the batch axes: each element of a batched objective receives the total over all batch elements instead of its own term" % " ".join(src(c).split())[:70], {})
+    rep.floor("C08-5", "reductions in objective code", n, 8)
